@@ -1865,10 +1865,13 @@ func runC18(ctx *Ctx) *Result {
 		"non-trivial = the raw file is present and some container receives entries from at least two parts; distinct by the encoded case. " +
 		"Stream cisco3: generated ASA/IOS configurations (routes, ACLs with object-groups, crypto maps, dynamic maps, transform sets, group-policies, " +
 		"tunnel-groups, usernames, pools, interface subcommands; equal / new / clashing names, unreferenced and twice referenced raw objects) parsed by the real " +
-		"parser and merged by the real MergeSpoc; command tables before and after (hooks) compared with the general Lean model; non-trivial = raw table has >= 3 prefixes"
+		"parser and merged by the real MergeSpoc; command tables before and after (hooks) compared with the general Lean model; non-trivial = raw table has >= 3 prefixes. " +
+		"Stream nonempty (nonempty.go): the clean cases of stream 1 for ASA, Linux, IOS against devices that already hold the same target, the target without its raw / IPv6 file, " +
+		"foreign objects under the generated -DRC-n names; ASA scripts executed on a strict specification-side device, views judged by the same laws, second compare must be empty; " +
+		"nonempty-groups: generated ASA targets with object-groups in Netspoc and raw part against such devices"
 	res.Assumptions = []string{
 		"container names are unique within one IPv4/IPv6/raw file (PAN-OS vsys, Linux chains; NSX policies may repeat)",
-		"an empty device: the change script of drc then lists the merged target completely",
+		"streams 1, cisco3, other3: an empty device (the change script of drc then lists the merged target completely); stream nonempty: devices written by the harness, ASA changes executed by the specification-side device of nonempty.go",
 	}
 	tmp, err := os.MkdirTemp("", "vh-c18-")
 	if err != nil {
